@@ -6,7 +6,7 @@ import TacklerModel.Model.Balance
 Every figure of a text report is printed by the same composition
 `format!("{:.prec$}", x.round_dp_with_strategy(prec, MidpointAwayFromZero))` with
 `prec = scale.get_precision(&x)`.  `rust_decimal`'s `{:.p}` pads or *truncates*; the rounding is done by
-`round_dp_with_strategy` (both in `Model/Dec`).  Field widths and alignment are not modelled: a figure is the
+`round_dp_with_strategy` (both in `Model/Dec`).  Field widths and alignment of the balance report are in `Model/BalanceLayout`; here a figure is the
 blank-free token of its column.
 -/
 namespace Tackler
